@@ -121,7 +121,9 @@ def world_s2i(ctx, prop, replay_path, variants, label, defer=None):
     ctx.cov["impl_runs"].append({
         "kind": "spec->impl replay of TLC behaviours on a real shred::World (%s)" % label,
         "behaviours": st["behaviours"], "runs": st["runs"], "calls_compared": st["calls"], "agree": st["agree"],
-        "disagree": st["disagree"], "ops": st["ops"], "blocks_also_validated_by_TLC": st["blocks_written"]})
+        "disagree": st["disagree"], "ops": st["ops"], "blocks_also_validated_by_TLC": st["blocks_written"],
+        "runs_on_rayon_worker": st["runs_on_rayon_worker"],
+        "calls_issued_from_a_destructor_while_unwinding": st["calls_issued_while_unwinding"]})
     ctx.cov["traces_validated_against_impl"] += st["runs"]
     for s in st["samples"][:1]:
         ctx.sample({"kind": "TLC behaviour replayed call by call on the real World (outcome and state equal)", "history": s})
@@ -152,7 +154,8 @@ def world_random(ctx, prop, blocks, length, seed_off=0):
                                 "--seed", ctx.seed * 1000 + seed_off, "--ntypes", 4, "--ndyns", 3], features=FEATURES)
     ctx.cov["impl_runs"].append({"kind": "impl->spec random single-thread histories (4 types x 3 dynamic ids)",
                                  "blocks": st["blocks"], "calls": st["calls"], "ops": st["ops"], "outcomes": st["outcomes"],
-                                 "aborted_blocks": st["aborted_blocks"]})
+                                 "aborted_blocks": st["aborted_blocks"], "blocks_on_rayon_worker": st["blocks_on_rayon_worker"],
+                                 "calls_issued_from_a_destructor_while_unwinding": st["calls_issued_while_unwinding"]})
     ctx.sample({"kind": "start of a random history on the real World (validated by WorldTrace)", "calls": st["samples"]})
     world_validate(ctx, prop, out, 4, 3, "random")
     ctx.cov["traces_validated_against_impl"] += st["blocks"]
@@ -167,6 +170,7 @@ def world_threads(ctx, prop, blocks, rounds, ops, seed_off=0, defer=None, maxthr
     ctx.cov["impl_runs"].append({"kind": "impl->spec multi-thread call/return histories with canaries (linearizability)",
                                  "blocks": st["blocks"], "thread_calls": st["thread_calls"], "quiescent_probes": st["syncs"],
                                  "threads_per_block": st["threads_per_block"], "max_pending_calls": st["max_pending_calls"],
+                                 "rounds_on_rayon_workers": st["rounds_on_rayon_workers"],
                                  "calls_overlapping_another": st["calls_overlapping_another"], "outcomes": st["outcomes"]})
     if st["samples"]:
         ctx.sample({"kind": "start of a multi-thread history (call before / ret after each real operation)",
@@ -228,6 +232,8 @@ def world_family(ctx, prop):
         "&mut-self calls are modelled as enabled only when no guard is live (a compile-time fact of the Rust API)",
         "borrow state of a cell is observed as free/shared/excl by try_borrow_mut/try_borrow probes at quiescent points on the "
         "only running thread; the shared COUNT is observed only through later releases",
+        "execution context (main thread / rayon pool worker; ordinary code / destructor running during unwinding) is chosen by "
+        "the harness from the seed and is not part of the spec: outcomes must not depend on it",
         "multi-thread histories: outcomes are judged for linearizability from the logged call/ret order; no probe while threads run",
     ]
 
